@@ -636,6 +636,29 @@ def gen_special_contour(rng, what, max_cells):
             "lim_form": g["lim_form"], "dl_form": g["dl_form"]}
 
 
+def gen_int_axis_contour(rng):
+    """2-D single region on a grid whose one axis is an INTEGER np.arange grid (whole-number limits and delta given as
+    Python ints) while the other axis has a fractional cell size"""
+    while True:
+        desc = M.gen_model_desc(rng, 2)
+        if all(d["family"] not in ("vonmises",) for d in desc["dims"]):
+            break
+    model = M.build_model(desc)
+    alpha = float(10 ** rng.uniform(-3, math.log10(0.3)))
+    ups = M.typical_upper(model, desc, min(1 - 1e-10, 1 - alpha / 30.0))
+    k = rng.choice([0, 0, 1])                       # the integer axis
+    lims, dls = [], []
+    for d in range(2):
+        hi = max(6, int(math.ceil(ups[d])))
+        lims.append([0, hi])
+        if d == k:
+            dls.append(max(1, hi // rng.randrange(10, 30)))
+        else:
+            dls.append(rng.choice([0.25, 0.5, 0.1, 0.3]) if hi <= 40 else hi / 64.0)
+    return {"kind": "contour", "desc": desc, "alpha": alpha, "limits": lims, "deltas": dls, "lim_form": rng.choice(["tuples", "lists"]),
+            "dl_form": "asis", "shape_kind": "int-axis"}
+
+
 def l7_case():
     """the anisotropic grid of lead L7 on the sea state model of the test-suite (scaled down)"""
     desc = {"dims": [{"family": "weibull", "params": {"alpha": 2.776, "beta": 1.471, "gamma": 0.8888}},
@@ -936,6 +959,8 @@ def run(ctx):
         cases_c.append(gen_ridge_case(rng, 3))
     for what in ["default-limits"] * ctx.n(2, 10) + ["4d"] * ctx.n(2, 10) + sorted(M.PREDEFINED) * ctx.n(1, 3):
         cases_c.append(gen_special_contour(rng, what, max_cells))
+    for i in range(ctx.n(4, 30)):
+        cases_c.append(gen_int_axis_contour(rng))
     for i in range(n_c):
         cases_c.append(gen_contour_case(rng, max_cells, multimodal=(i % 6 == 5)))
     outs_c = [run_contour(c) for c in cases_c]
